@@ -70,6 +70,7 @@ template<class T> static std::string exp_text(const T &o)
 }
 
 static const char *SENTINEL_LINE = "c11-sentinel-line";
+static std::string excerpt(const std::string &Tx) { return " | e.g. export: " + Tx.substr(0, 80) + (Tx.size() > 80 ? "... (" + str(Tx.size()) + " chars)" : ""); }
 
 // =================================================================== integers
 static void int_roundtrip(mpz_srcptr v, const std::string &what, const std::string &cid, uint64_t &refc)
@@ -346,6 +347,7 @@ template<class T> static void fam_qr(bool used_all)
 			if (R->out_of_time()) return;
 			at(cid);
 			bool extreme = (k == 1 || k == TMCG_MAX_PLAYERS) && (w == 1 || w == TMCG_MAX_TYPEBITS);
+			std::string shown;
 			for (int pattern = 0; pattern < Filler::npatterns(); pattern++)
 			{
 				if (pattern == 5 && !extreme) continue;
@@ -355,6 +357,7 @@ template<class T> static void fam_qr(bool used_all)
 				check_overrun(*R, "mpz-operator<<", cid);
 				std::string ctx = "shape " + str(k) + "x" + str(w) + " pattern " + str(pattern);
 				if (lite_skip(Tx)) continue;
+				if (pattern == 0) shown = Tx;
 				R->ok(D.fresh(fam, Tx));
 				// fresh targets
 				{ T fresh; qr_import_check(orig, Tx, fresh, 0, ctx + " into a fresh object", cid); }
@@ -375,7 +378,7 @@ template<class T> static void fam_qr(bool used_all)
 				}
 			}
 			if ((k == 1 && w == 1) || (k == TMCG_MAX_PLAYERS && w == TMCG_MAX_TYPEBITS) || (k == 3 && w == 4))
-				R->sample(cid, "5-6 fill patterns; fresh import + operator>>; used targets: " + std::string(used_all ? "all 320 shapes" : "neighbouring/extreme shapes"));
+				R->sample(cid, "5-6 fill patterns; fresh import + operator>>; used targets: " + std::string(used_all ? "all 320 shapes" : "neighbouring/extreme shapes") + excerpt(shown));
 		}
 }
 
